@@ -745,6 +745,24 @@ async fn flood_family(cli: &Cli, report: &mut Report, late: &LateLog) {
                 log
             }));
         }
+        // hammer tasks keep the accept queue from ever running empty: connect and reset at once
+        // (SO_LINGER 0, so no port lingers in TIME_WAIT)
+        let mut hammers = vec![];
+        for _ in 0..40 {
+            let stop_flood = stop_flood.clone();
+            hammers.push(tokio::spawn(async move {
+                let mut n = 0u64;
+                while !stop_flood.load(std::sync::atomic::Ordering::Relaxed) {
+                    if let Ok(s) = tokio::net::TcpStream::connect(addr).await {
+                        let _ = s.set_linger(Some(Duration::ZERO));
+                        n += 1;
+                    } else {
+                        tokio::time::sleep(Duration::from_millis(1)).await;
+                    }
+                }
+                n
+            }));
+        }
         tokio::time::sleep(Duration::from_millis(150 + 40 * round)).await;
         let stop = direct.stop.clone();
         let cancelled = tokio::task::spawn_blocking(move || {
@@ -755,6 +773,11 @@ async fn flood_family(cli: &Cli, report: &mut Report, late: &LateLog) {
         .unwrap_or_else(|_| Instant::now());
         tokio::time::sleep(Duration::from_millis(350)).await;
         stop_flood.store(true, std::sync::atomic::Ordering::Relaxed);
+        let mut hammered = 0u64;
+        for h in hammers {
+            hammered += h.await.unwrap_or(0);
+        }
+        report.count("flood: reset-at-once connections keeping the accept queue busy", hammered);
         let mut before = 0u64;
         let mut racing = 0u64;
         let mut after = 0u64;
